@@ -619,7 +619,7 @@ def run(ctx):
     ctx.rule = RULE
     rng = ctx.rng
     counter = [0]
-    nclasses = ctx.n(1500, 40000)
+    nclasses = ctx.n(1500, 250000)
     nvals = 8 if ctx.quick else 16
     for ci in range(nclasses):
         try:
